@@ -19,4 +19,38 @@ pub type ClientId = u64;
 #[cfg(feature = "verif")]
 pub mod verif {
     pub use crate::packet::{Packet, SerializationError, Slice, SLICE_SIZE};
+
+    use std::cell::Cell;
+    use std::collections::hash_map::DefaultHasher;
+    use std::hash::{BuildHasher, Hasher};
+
+    thread_local! {
+        static HASH_SEED: Cell<u64> = const { Cell::new(0) };
+    }
+
+    /// Seed picked up by every `RenetServer` created afterwards on this thread.
+    pub fn set_hash_seed(seed: u64) {
+        HASH_SEED.with(|s| s.set(seed));
+    }
+
+    /// Hasher state of the server's connection table under the `verif` feature: deterministic per seed, so that
+    /// iteration order (broadcasts, updates, id lists) is reproducible and still varies between simulated runs.
+    #[derive(Debug, Clone)]
+    pub struct SeededState(u64);
+
+    impl Default for SeededState {
+        fn default() -> Self {
+            SeededState(HASH_SEED.with(|s| s.get()))
+        }
+    }
+
+    impl BuildHasher for SeededState {
+        type Hasher = DefaultHasher;
+
+        fn build_hasher(&self) -> DefaultHasher {
+            let mut hasher = DefaultHasher::new();
+            hasher.write_u64(self.0);
+            hasher
+        }
+    }
 }
